@@ -180,8 +180,10 @@ class NmpfitStrategy(HoloPyObject):
 
         nmp_pars = []
         for par in parameters:
-            d = {'parname': par.name, 'value': par.scale(par.guess),
+            d = {'value': par.scale(par.guess),
                  'limited': [False, False], 'limits': [np.nan, np.nan]}
+            if par.name is not None:
+                d['parname'] = par.name
             if hasattr(par, "lower_bound") and par.lower_bound > -np.inf:
                 d['limited'][0] = True
                 d['limits'][0] = scaled_bound(par, par.lower_bound, 1)
